@@ -534,6 +534,11 @@ def run_unit(name, repo_root=None, want_canaries=True, timeout_ms=None):
             continue
         for k, sha in pr.u.functions.items():
             out["functions"]["::".join(k)] = sha
+        for k in sorted(getattr(pr.u.interp, "auto_inlined", ())):
+            try:
+                out["functions"]["::".join(("auto-inlined",) + tuple(k))] = pr.u.interp.repo.module(k[0]).sha
+            except Exception:
+                pass
         out["assumptions"] = sorted(set(out["assumptions"]) | pr.u.assumptions)
         out["used_ops"] = sorted(set(out["used_ops"]) | pr.ctx.used_ops)
         for d in pr.u.dim_order:
